@@ -952,6 +952,43 @@ func siC05(r *siReport) {
 			}
 		}
 	}
+	// an unknown field whose value belongs to a class (or list/map type) the type map does not know: a newer peer's extra field
+	for name, extra := range map[string]func(w *siW){
+		"object": func(w *siW) {
+			w.WriteByte('C')
+			w.str("com.new.Unknown").i(1).str("x")
+			w.WriteByte(0x61)
+			w.i(1)
+		},
+		"typed-list": func(w *siW) { w.WriteByte(0x71); w.str("[com.new.Unknown").i(7) },
+		"typed-map":  func(w *siW) { w.WriteByte('M'); w.str("java.util.TreeMap").i(1).i(1); w.WriteByte('Z') },
+	} {
+		w := &siW{}
+		w.WriteByte('C')
+		w.str("ZInner").i(3).str("a").str("extra").str("s")
+		w.WriteByte(0x60)
+		w.i(5)
+		extra(w)
+		w.str("bee")
+		cn := "skip-unknown-class/" + name
+		var out interface{}
+		var err error
+		func() {
+			defer func() {
+				if rec := recover(); rec != nil {
+					err = fmt.Errorf("PANIC: %v", rec)
+				}
+			}()
+			out, err = ToObject(w.Bytes(), tm)
+		}()
+		if err != nil {
+			r.fail(cn, err.Error())
+		} else if !siEqual(&ZInner{5, "bee"}, out) {
+			r.fail(cn, fmt.Sprintf("got %+v", out))
+		} else {
+			r.ok(cn)
+		}
+	}
 	r.done("all 120 permutations of 5 fields x {all, one dropped, unknown field first, unknown field in the middle} x class table positions {0,1,2} (and {15,16,17,40} for every 17th permutation)")
 }
 
